@@ -14,6 +14,11 @@ CHECKS = {
    technique="explicit enumeration of all event histories (replayed on fresh instances through the real handlers) against a reference fold + snapshot-immutability oracle; exhaustive announcement-set x scripted-RNG-answer enumeration for selection",
    text="Every ZooKeeper event history up to length 4 (quick) / 6 (thorough) over 3 znodes x {add, change, delete, malformed, weight-less} (+ a wider malformed alphabet at shorter length, + service-definition events at client level) is replayed through the real handleUriUpdate / wait loops of both generations; after every event the snapshot equals the reference fold and every earlier snapshot is unchanged. Host selection is decided for every announcement set (<=3/4 hosts x scheme x weight incl. 0 and fractional x znode grouping) x 6 priority lists x every scripted RNG answer on a 64*W grid plus the extremes.",
    note="Trusted: overlay export file (forwarding only), reference fold, scripted rand.Source. ZooKeeper, treecache.go and timers are below the seam and not exercised. Go map iteration order is not controllable: the selection oracle accepts the choice under any iteration order."),
+
+ "C20": dict(engine="bfs", category="model_checking", design="§3 C20",
+   technique="exhaustive enumeration of directory trees (states) run through the real CleanTargetDir (transitions) against a set-based reference model, plus idempotence",
+   text="Every directory tree of a bounded grammar (5 file kinds incl. look-alike names; sub-directories as multisets of smaller trees; quick: depth 2 with 3 entries in the target and 2 deeper + a depth-3 spine; thorough: all depth-2 trees with 3 entries at every level + depth 3) is materialised, cleaned by the real CleanTargetDir of both generations and compared entry by entry (existence, bytes, mode) with the reference model; cleaning twice must be a no-op; plus a missing target and the current directory as target.",
+   note="Trusted: tmpfs semantics, the refclean model. Nested manifests and directories that never held a file are don't-care. Regeneration after cleaning is covered under C12."),
 }
 
 NOT_YET = "check not yet built in this commit; planned in DESIGN.md"
